@@ -190,6 +190,62 @@ pub fn run_target(format: &str, bytes: &[u8], scratch: &std::path::Path) -> Stri
             if let Ok(m) = wow_cdbc::MmapDbcFile::open(&path) {
                 let _ = m.parser().parse_records();
             }
+            // schema-driven access paths: every field read as a string reference (the interpretation that
+            // dereferences untrusted offsets), then as plain integers with a key — eager, cached-string, lazy
+            // (iterator with skips, indexed); the rayon path is left to C17 (a thread pool per fuzz process costs two orders of magnitude in throughput)
+            let (fields, rsize) = (p.header().field_count as usize, p.header().record_size as usize);
+            // (bounded: the access paths are what matters here, not the table size)
+            if (1..=12).contains(&fields) && rsize == fields * 4 && p.header().record_count <= 16 && bytes.len() <= 8192 {
+                for strings in [true, false] {
+                    let mut schema = wow_cdbc::Schema::new("fuzz");
+                    for i in 0..fields {
+                        let ty = if strings && i % 2 == 1 || strings && fields == 1 { wow_cdbc::FieldType::String } else { wow_cdbc::FieldType::UInt32 };
+                        schema.add_field(wow_cdbc::SchemaField::new(format!("f{i}"), ty));
+                    }
+                    if !strings {
+                        schema.set_key_field_index(0);
+                    }
+                    let Ok(ps) = wow_cdbc::DbcParser::parse_bytes(bytes).and_then(|q| q.with_schema(schema)) else { continue };
+                    let Ok(mut rs) = ps.parse_records() else { continue };
+                    let refs: Vec<wow_cdbc::StringRef> = rs
+                        .records()
+                        .iter()
+                        .take(64)
+                        .flat_map(|r| r.values().iter().filter_map(|v| if let wow_cdbc::Value::StringRef(sr) = v { Some(*sr) } else { None }).collect::<Vec<_>>())
+                        .chain([0u32, 1, p.header().string_block_size.wrapping_sub(1), p.header().string_block_size, p.header().string_block_size.wrapping_add(1), u32::MAX].map(wow_cdbc::StringRef::new))
+                        .collect();
+                    let mut acc = 0usize;
+                    for sr in &refs {
+                        acc += rs.get_string(*sr).map(|s| s.len()).unwrap_or(0);
+                        acc += rs.string_block().get_string(*sr).map(|s| s.len()).unwrap_or(0);
+                    }
+                    let cached = wow_cdbc::CachedStringBlock::from_string_block(rs.string_block());
+                    for sr in &refs {
+                        acc += cached.get_string(*sr).map(|s| s.len()).unwrap_or(0);
+                    }
+                    rs.enable_string_caching();
+                    for sr in &refs {
+                        acc += rs.get_string(*sr).map(|s| s.len()).unwrap_or(0);
+                    }
+                    if !strings {
+                        let _ = rs.create_sorted_key_map();
+                        for k in [0u32, 1, 2, u32::MAX] {
+                            acc += rs.get_record_by_key(k).map(|r| r.len()).unwrap_or(0);
+                            acc += rs.get_record_by_key_binary_search(k).map(|r| r.len()).unwrap_or(0);
+                        }
+                    }
+                    let sb = std::sync::Arc::new(rs.string_block().clone());
+                    let lazy = wow_cdbc::LazyDbcParser::new(ps.data(), ps.header(), ps.schema(), std::sync::Arc::clone(&sb));
+                    acc += lazy.record_iterator().take(64).filter(|r| r.is_ok()).count();
+                    let mut it = lazy.record_iterator();
+                    acc += it.next().is_some() as usize + it.nth(2).is_some() as usize + it.by_ref().skip(1).step_by(3).take(8).count();
+                    for i in [0u32, 1, p.header().record_count.wrapping_sub(1), p.header().record_count, u32::MAX] {
+                        acc += lazy.get_record(i).map(|r| r.len()).unwrap_or(0);
+                    }
+                    drop(sb);
+                    std::hint::black_box(acc);
+                }
+            }
             match r {
                 Ok(_) => "ok".into(),
                 Err(e) => format!("header-ok;records-{}", ek(&e)),
